@@ -24,7 +24,7 @@ import vlib, drivers
 
 LEVEL = "exploration"
 META = {"text": 'Every (collective, algorithm) entry that `smpirun --help-coll` lists at run time (186 at this commit, plus gatherv, scatterv, scan, exscan which have no selector) is run with --cfg=smpi/<coll>:<algo> over communicator sizes 1,2,3,4,5,8,16,17, two host layouts, several roots and counts {0,1,2,np-1,np,np+1}, irregular counts / displacements with gaps for the v-variants and the operators SUM PROD MAX MIN BXOR; the receive buffer of every rank (including gaps and guard elements) is compared with the buffer that TLC computes from spec/mpi/MpiColl.tla, the sequential MPI reference; barriers are judged by TLC on the logged entry/exit dates. Exploration level: the space of inputs is sampled (seeded) and the schedules inside an algorithm are the one the simulator picks.',
-        "note": 'Trusted: TLC evaluating MpiColl (the oracle), the driver printing the buffers it got. MPI_INT only; derived datatypes, MAXLOC, user operators, in-place and non-blocking variants are not exercised. An explicit refusal (std::invalid_argument "... can\'t be used with ...", or one error code on every rank with untouched buffers) is counted as declined; crashes, hangs and wrong buffers of 44 (collective, algorithm) entries on edge cases (count 0, np 1, count not a multiple of np, non-contiguous deployments, the automatic selectors) are recorded as known findings keyed on (collective, algorithm, np class).',
+        "note": 'Trusted: TLC evaluating MpiColl (the oracle), the driver printing the buffers it got. MPI_INT only; derived datatypes, MAXLOC, user operators, in-place and non-blocking variants are not exercised. An explicit refusal (std::invalid_argument "... can\'t be used with ...", or one error code on every rank with untouched buffers) is counted as declined; crashes, hangs and wrong buffers of 45 (collective, algorithm) entries on edge cases (count 0, np 1, count not a multiple of the number of nodes, non-contiguous deployments, the automatic selectors) are recorded as known findings, each listing exactly the (np class, count class, failure kind) combinations observed on the unchanged tree; the count-0 and np-1 failures were reproduced with a stand-alone MPI program.',
         "technique": 'TLC as result oracle (MpiColl.tla evaluated on every generated case) + differential comparison of every rank\'s buffers over all selectable algorithms under smpirun'}
 DRIVERS = {"mpi_coll": (["mpi_coll.cpp"], "smpi", [])}
 
@@ -390,6 +390,17 @@ def run(ctx):
                 for lay in lays:
                     jobs.append((coll, algo, n, lay))
     tmo = 20 if quick else 45            # a run takes 0.1 .. 2 s; hangs of known-defective algorithms cost this much
+    # on a loaded machine the same run takes much longer: the time-out follows the measured duration of a trivial run
+    tcal = time.time()
+    ck = next(k for k in sorted(index) if k[0] != "barrier" and k[1] == max(n for n in nps if n <= 4))
+    cal = run_cases(ctx, "calibrate", ck[0], table[ck[0]][0], ck[1], "cyclic", [index[ck][0]], cases, 600)
+    tcal = time.time() - tcal
+    if cal["status"] != "ok":
+        raise vlib.InfraError("calibration run (%s %s on %d ranks) failed: %s %s" %
+                              (ck[0], table[ck[0]][0], ck[1], cal["status"], cal["msg"]))
+    tmo = int(max(tmo, min(300, 40 * tcal)))
+    ctx.cov["calibration_run_s"] = round(tcal, 2)
+    ctx.cov["timeout_s"] = tmo
 
     def do_job(jn):
         j, (coll, algo, n, lay) = jn
